@@ -1254,10 +1254,12 @@ class ThirdCoreHexToFullCoreChanger(GeometryChanger):
         GeometryChanger.__init__(self, cs)
         self.listOfVolIntegratedParamsToScale = []
         self._converted = False
+        self._zoneLocsAdded = []
 
     def reset(self):
         """Forget the conversion this changer has made."""
         self._converted = False
+        self._zoneLocsAdded = []
         super().reset()
 
     def _scaleBlockVolIntegratedParams(self, b, direction):
@@ -1352,8 +1354,9 @@ class ThirdCoreHexToFullCoreChanger(GeometryChanger):
                 self._sourceReactor.core.add(
                     newAssem, self._sourceReactor.core.spatialGrid[i, j, 0]
                 )
-                if thisZone:
+                if thisZone and newAssem.getLocation() not in thisZone:
                     thisZone.addLoc(newAssem.getLocation())
+                    self._zoneLocsAdded.append((thisZone, newAssem.getLocation()))
                 self._newAssembliesAdded.append(newAssem)
 
             if a.getLocation() == "001-001":
@@ -1399,6 +1402,10 @@ class ThirdCoreHexToFullCoreChanger(GeometryChanger):
         if self._converted:
             for a in self._newAssembliesAdded:
                 r.core.removeAssembly(a, discharge=False)
+            # the zones no longer hold the locations of the assemblies that were just removed
+            for zone, loc in self._zoneLocsAdded:
+                if loc in zone:
+                    zone.removeLoc(loc)
 
             r.core.symmetry = geometry.SymmetryType.fromAny(
                 self.EXPECTED_INPUT_SYMMETRY
